@@ -33,6 +33,10 @@
 (*   TimeSeesDeactivation  resolving by time at/after a deactivation does  *)
 (*                       not fall back to the older active version [F19,   *)
 (*                       repaired in the code by a229cbc: TRUE everywhere] *)
+(*   OpenPanics = {}     a null verificationMethod entry next to a         *)
+(*                       relationship reference is refused by the parser,  *)
+(*                       not a nil dereference in go-did [F5-C09-vm-null-  *)
+(*                       referenced]                                       *)
 (*   LaxDefects = {}     methods embedded in a verification relationship   *)
 (*                       obey the same id rules as verificationMethod [F20-C09]*)
 (***************************************************************************)
@@ -49,7 +53,8 @@ CONSTANTS
     TxU,          \* ambassador mode: transactions that may be received
     Carriers,     \* ambassador mode: transactions that are also delivered with a defective document
     Defects,      \* defect classes of documents (all must be refused)
-    PanicDefects, \* subset whose refusal is a nil dereference in the code
+    PanicDefects, \* subset whose refusal was a nil dereference in the validator (ValidatorNilSafe)
+    OpenPanics,   \* subset that still ends in a nil dereference before the validator is reached (prescriptive: {})
     LaxDefects,   \* subset the validator of the code does not look at (prescriptive: {})
     Mode,         \* "store" | "ambassador"
     MaxDepth,     \* maxControllerDepth (real: 5)
@@ -295,7 +300,7 @@ UpdateVerdict(t) ==
 
 Verdict(t, df) ==
     IF ~SignatureOK(t) THEN "rejected"                                   \* never reaches the ambassador
-    ELSE IF df \in PanicDefects /\ ~ValidatorNilSafe THEN "panic"
+    ELSE IF df \in OpenPanics \/ (df \in PanicDefects /\ ~ValidatorNilSafe) THEN "panic"
     ELSE IF df # "none" /\ df \notin LaxDefects THEN "rejected"            \* NetworkDocumentValidator
     ELSE IF T[t].kind = "create" THEN (IF Thumb[T[t].key] = T[t].did THEN "accepted" ELSE "rejected")
     ELSE UpdateVerdict(t)
